@@ -12,7 +12,7 @@ Context `{ClassifierOk} `{Upper}.
 (* words no longer than the width are never cut: the pieces are the words *)
 Lemma cov_no_chunk W ps ws : Forall (fun w => glen w <= W) ws -> cov W ps ws -> ps = ws.
 Proof.
-  intros HF Hc. induction Hc as [|w ps ws Hc IH|o w' ps ws Hne Hlt Hc IH]; [reflexivity| |].
+  intros HF Hc. induction Hc as [|w ps ws Hc IH|o w' ps ws Hne Hlt Hfull Hc IH]; [reflexivity| |].
   - inversion HF; subst. f_equal. apply IH. assumption.
   - inversion HF as [|? ? Hle _]; subst. lia.
 Qed.
